@@ -146,6 +146,7 @@ def gen_workflow(rng, nsteps=None, allow_sub=True, script=None):
     fns, subs, steps, owners, prims = {}, {}, [], {}, {}
     producers, listers = [], []
     used_sub = used_fe = used_switch = False
+    rf_creators = []        # ResourceFunction steps that create their object (a faulted POST makes them PermFail)
 
     def dep_n(k):
         """an expression giving an int from an earlier step (or a literal)"""
@@ -160,7 +161,7 @@ def gen_workflow(rng, nsteps=None, allow_sub=True, script=None):
         step = {"label": label}
         forced = script[k] if script else None
         if forced:
-            r = {"vf": 0.0, "rf": 0.3, "fe": 0.6, "sub": 0.8, "fesub": 0.8, "switch": 0.9, "vfdep": 0.95}[forced.split(":")[0]]
+            r = {"vf": 0.0, "rf": 0.3, "rford": 0.3, "fe": 0.6, "sub": 0.8, "fesub": 0.8, "switch": 0.9, "vfdep": 0.95}[forced.split(":")[0]]
             if forced == "switch":
                 used_sub = True
             if forced == "vfdep":
@@ -179,14 +180,28 @@ def gen_workflow(rng, nsteps=None, allow_sub=True, script=None):
             variant = rng.choice(["patch", "patch", "patch", "recreate", "never", "readonly", "nocreate", "die"])
             if forced and ":" in forced:
                 variant = forced.split(":")[1]
+            elif forced == "rford":
+                variant = "patch"
             fn = f"rf-{tag}"
             name = f"o{k}" if rng.random() < 0.6 else f'="o{k}-" + string(inputs.size)'
             fns[fn] = {"kind": "ResourceFunction", "spec": rf_spec(tag, name, variant)}
             step["ref"] = {"kind": "ResourceFunction", "name": fn}
             step["inputs"] = {"size": dep_n(k)}
+            ord_only = (forced == "rford") if forced else (bool(rf_creators) and rng.random() < 0.3)
+            if ord_only and (rf_creators or producers):
+                # ORDERING-ONLY dependency: the step references an earlier step but needs no value from it
+                dep = rng.choice(rf_creators or producers)
+                step["inputs"] = {"size": rng.choice([1, 2, 3])}
+                if rng.random() < 0.6:
+                    step["inputs"]["seen"] = f"=has(steps.{dep}.n)"
+                else:
+                    step["skipIf"] = f"=has(steps.{dep}.nope)"
+                variant = variant + "+ord"
             owners[_plural(tag)] = [label, None]
             prims[_plural(tag)] = variant
             producers.append(label)
+            if variant.split("+")[0] in ("patch", "recreate", "never"):
+                rf_creators.append(label)
         elif r < 0.7 and not used_fe:
             used_fe = True
             fn = f"rf-{tag}"
@@ -242,13 +257,15 @@ def gen_workflow(rng, nsteps=None, allow_sub=True, script=None):
             fns[fn] = {"kind": "ValueFunction", "spec": {"return": {"n": "=inputs.a * 2", "items": [1, 2]}}}
             step["ref"] = {"kind": "ValueFunction", "name": fn}
             step["inputs"] = {"a": dep_n(k)}
+            if rf_creators and rng.random() < 0.3:
+                step["inputs"] = {"a": 2, "seen": f"=has(steps.{rng.choice(rf_creators)}.n)"}     # ordering-only
             producers.append(label)
             listers.append(label)
         if rng.random() < 0.45 and "forEach" not in step:
             step["condition"] = {"type": f"Cond{k}", "name": f"thing {k}"}
         if rng.random() < 0.3 and label in producers:
             step["state"] = {f"seen{k}": "=value.n"}
-        if rng.random() < 0.08:
+        if rng.random() < 0.08 and "skipIf" not in step:
             step["skipIf"] = "=false"
         steps.append(step)
     return {"fns": fns, "subs": subs, "wf": {"steps": steps}, "owners": owners, "prims": prims, "uid": uid}
@@ -899,7 +916,7 @@ def make_cases(ctx: Ctx):
     """workflow cases (with initial contents) for this tier"""
     out = []
     nwf = 10 if ctx.quick() else 40
-    scripts = [["vf", "rf:patch", "rf:recreate", "fe", "vfdep", "rf:die"],
+    scripts = [["vf", "rf:patch", "rf:recreate", "rford", "fe", "vfdep", "rf:die"],
                ["vf", "sub", "rf:never", "rf:readonly", "switch", "vfdep"],
                ["vf", "rf:patch", "fesub", "rf:nocreate", "vfdep"]]
     for j in range(nwf):
